@@ -739,3 +739,441 @@ def c19(tier, seed):
     c.assumptions = ['delivery = the application router callback ran (handle_application uses the documented idiom enforce(...) || msg->process(router))',
                      'one-directional: non-delivery of an admissible message is C20\'s business', 'whether a rejected message consumes its number is not stated: the model follows the session there']
     c.finish()
+
+
+# ---------------------------------------------------------------------------------------------------------
+# C20: gap recovery against a protocol-conformant counterparty (closed loop)
+
+class Counterparty:
+    """executable reference model of the FIX session protocol's sending side"""
+
+    def __init__(self, s, own, peer):
+        self.s, self.own, self.peer = s, own, peer     # own = counterparty's CompID, peer = the session's
+        self.log = {}       # seq -> ('app', id, sent_ms) | ('admin', type, sent_ms)
+
+    def next_seq(self):
+        return self.s.peer_seq
+
+    def emit(self, kind, ident=None):
+        """consume the next number; returns the bytes a delivery would carry"""
+        seq = self.s.peer_seq
+        if kind == 'app':
+            raw = self.s.order(ident)
+            self.log[seq] = ('app', ident, self.s.now)
+        elif kind == 'hb':
+            raw = self.s.peer_msg('0')
+            self.log[seq] = ('admin', '0', self.s.now)
+        elif kind == 'logon':
+            raw = self.s.logon(30)
+            self.log[seq] = ('admin', 'A', self.s.now)
+        elif kind.startswith('hbreply:'):
+            raw = self.s.peer_msg('0', [(112, kind[8:])])
+            self.log[seq] = ('admin', '0', self.s.now)
+        return raw
+
+    def answer_resend(self, b, e):
+        """conformant reply: replay application messages, gap-fill administrative ones, in ascending order"""
+        latest = self.s.peer_seq - 1
+        end = latest if e == 0 or e > latest else e
+        out = []
+        n = b
+        while n <= end:
+            ent = self.log.get(n)
+            if ent and ent[0] == 'app':
+                out.append(self.s.order(ent[1], seq=n, possdup=True, orig_ms=ent[2]))
+                n += 1
+            else:
+                m = n
+                while m <= end and not (self.log.get(m) and self.log[m][0] == 'app'):
+                    m += 1
+                out.append(self.s.peer_msg('4', [(123, 'Y'), (36, m)], seq=n, possdup=True, orig_ms=self.log.get(n, ('', '', self.s.now))[2]))
+                n = m
+        return out
+
+
+def hist_c20(out, sim, rng, n, extra):
+    s = Sess(sim, rng)
+    role = rng.choice('AI')
+    persist = rng.choice(['file', 'file', 'mem']) if role == 'I' else 'file'
+    own, peer = ('SRV', 'CLI') if role == 'A' else ('CLI', 'SRV')
+    r = s.new(role, own, peer, 30, persist, purge=1)
+    cp = Counterparty(s, peer, own)
+    # logon (the counterparty's Logon is number 1)
+    if role == 'I':
+        s.inject(cp.emit('logon'))
+    else:
+        s.inject(cp.emit('logon'))
+    q = s.q()
+    if q.get('state') != 'continuous':
+        out.v('oracle:logon-failed', 'case %d: %s' % (n, q), s)
+        return
+    # plan: counterparty messages with loss windows and optional reconnects
+    nmsg = rng.randint(3, 30)
+    plan = []
+    ident = 0
+    windows = rng.randint(0, 3)
+    lost_at = set()
+    for _ in range(windows):
+        a = rng.randint(0, nmsg - 1)
+        for x in range(a, min(nmsg, a + rng.randint(1, 4))):
+            lost_at.add(x)
+    reconnect_at = set(rng.sample(range(1, nmsg), min(nmsg - 1, rng.choice([0, 0, 1, 2])))) if nmsg > 2 else set()
+    for i in range(nmsg):
+        kind = 'app' if rng.random() < 0.7 else 'hb'
+        plan.append((kind, i in lost_at, i in reconnect_at))
+    plan.append(('hb', False, False))       # something arrives after the last loss so that it can be noticed
+    plan.append(('app', False, False))
+    delivered = set()
+    sent_ids = []
+    queue = []              # messages in flight towards the session (bytes)
+    exchanges = 0
+    budget = 6 * (len(plan) + windows + 4) + 40
+    trace = []
+    gaps = 0
+
+    def pump(raw, label):
+        """deliver one message; react to what the session sends back"""
+        nonlocal exchanges
+        exchanges += 1
+        mark = len(s.wire)
+        r = s.inject(raw)
+        for d in r.delivered():
+            delivered.add(d[0])
+        replies = []
+        for m in s.wire[mark:]:
+            if m.type == '2':
+                b, e = int(m.get(7)), int(m.get(16))
+                trace.append('RR[%d,%d]' % (b, e))
+                replies.append(('resend', b, e))
+            elif m.type == '1':
+                replies.append(('testreq', m.get(112)))
+            elif m.type == '5':
+                replies.append(('logout', m.get(58)))
+            elif m.type == '3':
+                replies.append(('reject', m.get(58)))
+        return replies
+
+    def settle(initial):
+        """process reactions until the wire is idle (bounded)"""
+        pending = list(initial)
+        while pending:
+            kind = pending.pop(0)
+            if exchanges > budget:
+                return 'budget'
+            if kind[0] == 'logout':
+                return 'logout:' + str(kind[1])
+            if kind[0] == 'reject':
+                return 'reject:' + str(kind[1])
+            if kind[0] == 'testreq':
+                pending += pump(cp.emit('hbreply:' + (kind[1] or '')), 'hb-reply')
+            elif kind[0] == 'resend':
+                for raw in cp.answer_resend(kind[1], kind[2]):
+                    pending += pump(raw, 'replay')
+                    if s.q().get('shutdown') == '1':
+                        return 'terminated-during-replay'
+        return None
+
+    ctx = lambda: 'case %d role=%s persist=%s plan=%s trace=%s' % (n, role, persist, ''.join(('A' if k == 'app' else 'h') + ('x' if l else '') + ('R' if rc else '') for k, l, rc in plan), trace[-12:])
+    for i, (kind, lost, reconnect) in enumerate(plan):
+        if reconnect:
+            # disconnect; the counterparty keeps sending into the void; reconnect with a Logon numbered above what the session expects
+            s.close()
+            k = rng.randint(0, 3)
+            for _ in range(k):
+                ident += 1
+                cid = 'g%d_%d' % (n, ident)
+                cp.emit('app' if rng.random() < 0.7 else 'hb', cid)
+                if cp.log[s.peer_seq - 1][0] == 'app':
+                    sent_ids.append(cid)
+            trace.append('reconnect(+%d)' % k)
+            gaps += 1 if k else 0
+            r = s.new(role, own, peer, 30, persist, purge=0)
+            for m in r.outs:
+                if m.type == 'A':
+                    pass
+            why = settle(pump(cp.emit('logon'), 'logon'))
+            q = s.q()
+            if why or q.get('shutdown') == '1' or q.get('state') not in ('continuous', 'resend_request_sent'):
+                out.v('oracle:reconnect-with-higher-logon-number-fails', '%s: %s state=%s shutdown=%s' % (ctx(), why, q.get('state'), q.get('shutdown')), s)
+                return
+        ident += 1
+        cid = 'g%d_%d' % (n, ident)
+        raw = cp.emit(kind, cid)
+        if kind == 'app':
+            sent_ids.append(cid)
+        if lost:
+            trace.append('lost%d' % (s.peer_seq - 1))
+            gaps += 1
+            continue
+        trace.append('%s%d' % ('a' if kind == 'app' else 'h', s.peer_seq - 1))
+        why = settle(pump(raw, kind))
+        q = s.q()
+        if why or q.get('shutdown') == '1':
+            out.v('oracle:session-terminated-or-rejected-with-conformant-counterparty|' + (why or 'shutdown').split(':')[0],
+                  '%s: %s state=%s' % (ctx(), why, q.get('state')), s)
+            return
+        s.adv(rng.choice([0, 3, 50]))
+    out.stat('histories_with_gaps', 1 if gaps else 0)
+    out.stat('counterparty_messages', len(cp.log))
+    out.stat('exchanges', exchanges)
+    q = s.q()
+    missing = [c_ for c_ in sent_ids if c_ not in delivered]
+    if missing:
+        out.v('oracle:application-message-never-delivered', '%s: %d of %d never delivered, e.g. %s; session expects %s, counterparty next %d, state %s' % (
+            ctx(), len(missing), len(sent_ids), missing[:4], q.get('recv'), s.peer_seq, q.get('state')), s)
+        return
+    if int(q['recv']) != s.peer_seq:
+        out.v('oracle:expected-number-differs-after-recovery', '%s: session expects %s, counterparty next %d, state %s' % (ctx(), q['recv'], s.peer_seq, q.get('state')), s)
+        return
+    if q.get('state') != 'continuous':
+        out.v('oracle:not-continuous-after-recovery', '%s: state %s' % (ctx(), q.get('state')), s)
+        return
+    out.distinct('plan', hash((role, tuple(plan))))
+    out.distinct('recovery_trace', hash(tuple(t for t in trace if t.startswith(('RR', 'lost', 'reconnect')))))
+    if n % 67 == 0 and len(out.samples) < 3:
+        out.samples.append({'role': role, 'persist': persist, 'trace': trace[:40], 'delivered': len(delivered), 'sent': len(sent_ids)})
+
+
+def c20(tier, seed):
+    c = Check('C20', tier, seed)
+    drive(c, 'hist_c20', 1500 if c.quick else 60000)
+    c.distinct_names = ['plan', 'recovery_trace']
+    c.rule = ('closed loop between one real Session and an executable reference model of a conformant counterparty (own sent log; answers every '
+              'ResendRequest by replaying application messages with PossDup/OrigSendingTime and gap-filling administrative ones, answers test '
+              'requests, then continues): plans of 3..30 counterparty messages with up to 3 loss windows and up to 2 disconnects during which the '
+              'counterparty keeps numbering (reconnect Logon above the expected number), acceptor and initiator, file/memory persister; bounded '
+              'progress: the loop runs until the wire is idle, at most 6x(messages+gaps)+40 exchanges; verdict: no Logout/Reject/termination, '
+              'every application id delivered at least once, expected number == counterparty\'s next, state continuous; evaluations = histories')
+    c.assumptions = ['liveness restated as bounded progress at the point where the wire is idle', 'messages lost are those sent while disconnected or dropped in a loss window; the plan ends with a message that arrives']
+    c.finish()
+
+
+# ---------------------------------------------------------------------------------------------------------
+# C22: heartbeat / test request supervision on the virtual clock
+
+def hist_c22(out, sim, rng, n, extra):
+    s = Sess(sim, rng)
+    role = rng.choice('AI')
+    H = rng.choice([1, 2, 5, 7, 10, 30, 60])
+    own, peer = ('SRV', 'CLI') if role == 'A' else ('CLI', 'SRV')
+    r = s.new(role, own, peer, H, 'none', purge=1)
+    s.handshake(r, H)
+    q = s.q()
+    if q.get('state') != 'continuous':
+        out.v('oracle:logon-failed', 'case %d: %s' % (n, q), s)
+        return
+    LS = LR = s.now          # model: instants of the last transmission / reception (ms)
+    pending = False
+    T_tr = None
+    lim = (H + H // 5 + 1) * 1000        # "more than H plus 20 percent", the session works in whole seconds: from floor(1.2H)+1 s it is due
+    free_lo = 1200 * H                   # up to and including 1.2 H nothing may be concluded
+    trace = []
+    ident = 0
+    for step in range(rng.randint(4, 80)):
+        k = rng.random()
+        mark = len(s.wire)
+        if k < 0.36:
+            d = rng.choice([1, 250, 999, 1000, 1001, H * 500, H * 1000 - 1, H * 1000, H * 1000 + 1, H * 1200, H * 1200 + 1, lim - 1, lim, lim + 1, rng.randint(1, 3 * H * 1000)])
+            s.adv(d)
+            trace.append('+%d' % d)
+            continue
+        if k < 0.72:
+            trace.append('tick@%d' % ((s.now - T0)))
+            r = s.tick()
+            outs = s.wire[mark:]
+            types = [m.type for m in outs]
+            idle, quiet = s.now - LS, s.now - LR
+            ctx = 'case %d role=%s H=%d idle=%dms quiet=%dms pending=%s since-test-request=%s; trace=%s' % (
+                n, role, H, idle, quiet, pending, (s.now - T_tr) if T_tr is not None else None, trace[-8:])
+            out.stat('ticks')
+            out.distinct('tick_situation', hash((H, min(idle // 500, 400), min(quiet // 500, 400), pending)))
+            if idle >= H * 1000 and '0' not in types and '5' not in types:
+                out.v('oracle:heartbeat-not-sent-when-due', '%s: outbound %s' % (ctx, types), s)
+                return
+            if not pending:
+                if '1' in types:
+                    if quiet <= free_lo:
+                        out.v('oracle:test-request-too-early', '%s' % ctx, s)
+                        return
+                    pending, T_tr = True, s.now
+                    out.stat('test_requests')
+                elif quiet >= lim:
+                    out.v('oracle:test-request-not-sent-when-due', '%s: outbound %s' % (ctx, types), s)
+                    return
+                if '5' in types:
+                    out.v('oracle:logout-without-test-request', ctx, s)
+                    return
+            else:
+                since = s.now - T_tr
+                if '5' in types:
+                    if since <= free_lo:
+                        out.v('oracle:logout-too-early-after-test-request', ctx, s)
+                        return
+                    out.stat('logouts_after_unanswered_test_request')
+                    q = s.q()
+                    if q.get('shutdown') != '1':
+                        out.v('oracle:not-terminated-after-logout', '%s: %s' % (ctx, q), s)
+                    return
+                if since >= lim and quiet >= lim:
+                    out.v('oracle:no-logout-after-unanswered-test-request', '%s: outbound %s' % (ctx, types), s)
+                    return
+            if outs:
+                LS = s.now
+            continue
+        if k < 0.80:
+            ident += 1
+            trace.append('send')
+            s.send('h%d_%d' % (n, ident))
+            if s.wire[mark:]:
+                LS = s.now
+            continue
+        if k < 0.90:
+            trace.append('in-hb')
+            tid = 'TEST' if pending else None
+            r = s.inject(s.peer_msg('0', [(112, tid)] if tid else []))
+            LR = s.now
+            if s.wire[mark:]:
+                LS = s.now
+            if pending:
+                q = s.q()
+                if q.get('state') != 'continuous':
+                    out.v('oracle:heartbeat-does-not-end-test-request-state', 'case %d H=%d: state %s after the answering Heartbeat; trace=%s' % (n, H, q.get('state'), trace[-8:]), s)
+                    return
+                pending, T_tr = False, None
+                out.stat('test_requests_answered')
+            continue
+        if pending:
+            continue        # while a test request is pending only its answer (or silence) is played: other traffic makes the statement ambiguous
+        if k < 0.95:
+            ident += 1
+            trace.append('in-app')
+            s.inject(s.order('h%d_%d' % (n, ident)))
+            LR = s.now
+            if s.wire[mark:]:
+                LS = s.now
+            continue
+        tid = 'TR%d_%d' % (n, step)
+        trace.append('in-testreq')
+        r = s.inject(s.peer_msg('1', [(112, tid)]))
+        LR = s.now
+        outs = s.wire[mark:]
+        out.stat('inbound_test_requests')
+        if not any(m.type == '0' and m.get(112) == tid for m in outs):
+            out.v('oracle:test-request-not-answered-with-same-id', 'case %d H=%d: sent TestReqID %s, outbound %s' % (n, H, tid, [(m.type, m.get(112)) for m in outs]), s)
+            return
+        LS = s.now
+    if n % 59 == 0 and len(out.samples) < 3:
+        out.samples.append({'role': role, 'H': H, 'trace': trace[:30]})
+
+
+def c22(tier, seed):
+    c = Check('C22', tier, seed)
+    drive(c, 'hist_c22', 2000 if c.quick else 100000)
+    c.evaluations = c.stats.get('ticks', 0) + c.stats.get('inbound_test_requests', 0)
+    c.distinct_names = ['tick_situation']
+    c.rule = ('timelines of 4..80 events on the virtual clock (advance by 1 ms..3H incl. H-1ms, H, H+1ms, 1.2H, 1.2H+1ms, floor(1.2H)+1 s; supervision '
+              'tick; application send; inbound heartbeat / application message / test request) for H in {1,2,5,7,10,30,60}, acceptor and initiator; '
+              'a timeline model of last-sent / last-received instants decides every tick: Heartbeat when idle >= H; TestRequest once quiet >= '
+              'floor(1.2H)+1 s and never while quiet <= 1.2H; after a TestRequest the Logout only after a further such period, never within 1.2H, '
+              'and then termination; TestRequest answered by a Heartbeat with the same TestReqID; the answering Heartbeat restores continuous; '
+              'evaluations = ticks + inbound test requests; distinct = (H, idle, quiet, pending) situations')
+    c.assumptions = ['the second between 1.2H and floor(1.2H)+1 s is free (the session compares whole seconds)', 'while a test request is pending only its answer or silence is played']
+    c.finish()
+
+
+# ---------------------------------------------------------------------------------------------------------
+# C23: logon acceptance, CompID identity
+
+def hist_c23(out, sim, rng, n, extra):
+    ids = ['AAA', 'BBB', 'CCC']
+    part = n % 3
+    if part == 0:
+        # ---- acceptor
+        s = Sess(sim, rng)
+        own = rng.choice(ids)
+        enforce = rng.choice([0, 1])
+        sender, target = rng.choice(ids), rng.choice(ids)
+        clients = rng.choice(['-', sender, ','.join(x for x in ids if x != sender), ','.join(ids)])
+        reset = rng.choice([False, True])
+        hb = rng.choice([1, 5, 17, 30, 45, 120])
+        pre_send, pre_recv = rng.choice([(0, 0), (7, 5), (3, 9)])
+        s.new('A', own, sender, 30, 'mem', enforce=enforce, clients=clients, sendseq=pre_send, recvseq=pre_recv, purge=1)
+        lseq = 1 if reset or not pre_recv else pre_recv
+        mark = len(s.wire)
+        r = s.inject(s.logon(hb, reset=reset, seq=lseq, sender=sender, target=target))
+        outs = s.wire[mark:]
+        q = s.q()
+        legit = (not enforce or target == own) and (clients == '-' or sender in clients.split(','))
+        accepted = q.get('state') == 'continuous' and q.get('shutdown') != '1'
+        lg = [m for m in outs if m.type == 'A']
+        ctx = 'case %d acceptor own=%s logon(sender=%s target=%s) enforce=%d clients=%s reset=%s hb=%d preset=%s/%s: state=%s shutdown=%s outbound=%s' % (
+            n, own, sender, target, enforce, clients, reset, hb, pre_send, pre_recv, q.get('state'), q.get('shutdown'), [(m.type, m.seq, m.get(108)) for m in outs])
+        out.stat('acceptor_logons')
+        out.distinct('combo', hash(('A', own == target, enforce, clients == '-', sender in clients.split(','), reset, bool(pre_recv))))
+        if accepted and not legit:
+            out.v('oracle:acceptor-accepts-illegitimate-logon|' + ('wrong-target' if target != own and enforce else 'sender-not-listed'), ctx, s)
+            return
+        if legit and not accepted:
+            out.v('oracle:acceptor-refuses-legitimate-logon', ctx, s)
+            return
+        if not legit:
+            if lg:
+                out.v('oracle:logon-reply-to-refused-logon', ctx, s)
+            return
+        if not lg or lg[0].get(108) != str(hb):
+            out.v('oracle:logon-reply-heartbtint-not-echoed', ctx, s)
+            return
+        if reset and (lg[0].seq != 1 or q.get('send') != '2' or q.get('recv') != '2'):
+            out.v('oracle:reset-flag-does-not-reset-both-numbers', ctx + ' counters %s/%s' % (q.get('send'), q.get('recv')), s)
+        if not reset and pre_send and lg[0].seq != pre_send:
+            out.v('oracle:configured-start-number-ignored', ctx, s)
+    elif part == 1:
+        # ---- initiator
+        s = Sess(sim, rng)
+        own, peer = rng.sample(ids, 2) if rng.random() < 0.8 else (ids[0], ids[0])
+        enforce = rng.choice([0, 1])
+        r = s.new('I', own, peer, 30, 'none', enforce=enforce, purge=1)
+        rs, rt = rng.choice(ids), rng.choice(ids)
+        s.inject(s.logon(30, sender=rs, target=rt))
+        q = s.q()
+        mirror = (rs == peer and rt == own)
+        accepted = q.get('state') == 'continuous' and q.get('shutdown') != '1'
+        ctx = 'case %d initiator identity %s->%s, Logon response sender=%s target=%s enforce=%d: state=%s shutdown=%s' % (n, own, peer, rs, rt, enforce, q.get('state'), q.get('shutdown'))
+        out.stat('initiator_logons')
+        out.distinct('combo', hash(('I', rs == peer, rt == own, enforce, own == peer)))
+        if enforce and accepted and not mirror:
+            which = 'sender-differs' if rs != peer and rt == own else 'target-differs' if rt != own and rs == peer else 'both-differ'
+            out.v('oracle:initiator-accepts-mismatching-compids|' + which, ctx, s)
+        elif mirror and not accepted:
+            out.v('oracle:initiator-refuses-mirrored-compids', ctx, s)
+    else:
+        # ---- SessionID comparison, exhaustive over the 3-letter alphabet (81 pairs), one pair per case index
+        k = (n // 3) % 81
+        a, b, c_, d = ids[k % 3], ids[k // 3 % 3], ids[k // 9 % 3], ids[k // 27 % 3]
+        lines = sim.cmd('SID %s %s %s %s %s %s' % (BEGIN, a, b, BEGIN, c_, d))
+        res = dict(x.split('=') for x in lines[0].split(' ')[1:])
+        equal = (a == c_ and b == d)
+        out.stat('sessionid_pairs')
+        out.distinct('combo', hash(('S', k)))
+        if (res['eq'] == '1') != equal:
+            out.v('oracle:sessionid-equality-wrong', 'case %d: %s->%s == %s->%s gives %s' % (n, a, b, c_, d, res['eq']))
+        if (res['ne'] == '1') != (not equal):
+            which = 'one-side-differs' if (a == c_) != (b == d) else 'both-differ' if not equal else 'equal'
+            out.v('oracle:sessionid-inequality-not-negation|' + which, 'case %d: %s->%s != %s->%s gives %s (== gives %s)' % (n, a, b, c_, d, res['ne'], res['eq']))
+        if res['selfeq'] != '1' or res['selfne'] != '0':
+            out.v('oracle:sessionid-self-comparison', 'case %d: %s' % (n, res))
+    if n % 41 == 0 and len(out.samples) < 4:
+        out.samples.append({'case': n, 'part': ['acceptor', 'initiator', 'sessionid'][part]})
+
+
+def c23(tier, seed):
+    c = Check('C23', tier, seed)
+    drive(c, 'hist_c23', 3000 if c.quick else 60000)
+    c.distinct_names = ['combo']
+    c.rule = ('acceptor: every combination of own CompID x Logon Sender/TargetCompID over a 3-letter alphabet x enforcement on/off x client list (none / '
+              'containing / not containing the sender / all) x ResetSeqNumFlag x HeartBtInt x preset numbers: logon completes iff the stated '
+              'conditions hold, the reply echoes HeartBtInt, the reset flag resets both numbers to 1; initiator: response CompIDs over the '
+              'alphabet x enforcement: accepted with enforcement on only when they mirror the identity; SessionID == and != over all 81 pairs '
+              '(exhaustive): != must be the negation of ==; evaluations = cases; distinct = configuration combinations')
+    c.assumptions = ['"treats as a mismatch" = the initiator does not reach the established state', 'SessionID equality is over (SenderCompID, TargetCompID) as the class defines it']
+    c.finish()
